@@ -5,3 +5,4 @@ import XfemmVerif.Model.Exit
 import XfemmVerif.Model.Refs
 import XfemmVerif.Model.ESolver
 import XfemmVerif.Model.Heat
+import XfemmVerif.Model.Magnetics
